@@ -163,6 +163,38 @@ sp_run(Params *p)
 	sim_quiesce(3000000);
 	for (uint32_t i = 0; i < 2; i++)
 		exchange(pr, a, b, i);
+	// a burst without the receiver reading in between: whatever the queues
+	// hold afterwards comes out once (a queue that survived a failed
+	// allocation in a half-made state shows here)
+	if (pr.style != 1) {
+		uint32_t base = 5000;
+		for (uint32_t i = 0; i < 6; i++)
+		{
+			int brv = send_tag(a, base + i); // may time out: nobody is reading
+			sim_event("burst send %u -> %d", base + i, brv);
+		}
+		sim_quiesce(3000000);
+		uint32_t last = 0;
+		for (int n = 0; n < 12; n++) {
+			nng_msg *m = NULL;
+			if (nng_recvmsg(b, &m, NNG_FLAG_NONBLOCK) != 0)
+				break;
+			Tag t = tag_parse((uint8_t *) nng_msg_body(m), nng_msg_len(m));
+			nng_msg_free(m);
+			if (!t.ok)
+				VIOL("corrupt_message", "burst: received message fails its checksum");
+			sim_event("burst recv %u", t.serial);
+			if (t.serial < base)
+				continue; // a leftover of the exchanges above
+			// (no order is asserted: the failed allocation may have cost a
+			// connection, and messages of different connections are unordered)
+			if (t.serial - base < 32 && (last & (1u << (t.serial - base))))
+				VIOL("duplicate_delivery", "%s burst: message %u delivered twice", pr.name, t.serial);
+			if (t.serial - base < 32)
+				last |= 1u << (t.serial - base);
+			sim_quiesce(1000000);
+		}
+	}
 	// contexts where the protocol has them
 	if (pr.open_a == nng_req0_open) {
 		nng_ctx ca, cb;
